@@ -80,6 +80,22 @@ def I(v):
     return {"k": "I", "v": v}
 
 
+# int64 cells beyond what TLC integers hold: the abstract value BIG + d (0 <= d < 2^20) stands for the int64
+# 2^53 + d (and -(BIG + d) for -(2^53 + d)): neighbours that float64 cannot tell apart. The mapping is
+# strictly monotone, so every comparison TLC makes on abstract values is the comparison of the numbers;
+# sums over such cells are not judged (BQLSemantics.SumJudgeable).
+BIG = 1 << 29
+BIGBASE = 1 << 53
+
+
+def int_actual(v):
+    a = abs(v)
+    if a < BIG:
+        return v
+    x = BIGBASE + (a - BIG)
+    return x if v > 0 else -x
+
+
 FSCALE = 1 << 24  # float64 cells carry value * 2^24 (exact for the values used; |value| < 64)
 
 
@@ -134,7 +150,20 @@ TRIPLES = [  # (s, p, o)
     (1, 4, FE(FSCALE + 1)),  # 32 /u<a> q@[] 1.0000000596...  (1 + 2^-24)
     (2, 4, FE(FSCALE + 2)),  # 33 /u<b> q@[] 1.0000001192...  (1 + 2^-23): equal to 32 up to 6 decimals
     (4, 4, FE(FSCALE + 1)),  # 34 /u<c> q@[] 1 + 2^-24 again (same value as 32)
+    (1, 4, I(BIG)),          # 35 /u<a> q@[] 9007199254740992  (2^53)
+    (2, 4, I(BIG + 1)),      # 36 /u<b> q@[] 9007199254740993  (2^53 + 1: the same float64 as 2^53)
+    (4, 4, I(-(BIG + 1))),   # 37 /u<c> q@[] -9007199254740993
+    (3, 4, I(BIG + 2)),      # 38 /v<a> q@[] 9007199254740994
+    (4, 12, I(7), "2020-01-01T00:00:00Z"),  # 39 /u<c> s@[i2] 7: the predicate of 26, here stored in UTC; the text of
+                             #    s@[i3] (27) sorts between the two spellings
+    (4, 1, FE(3)),           # 40 /u<c> p@[] 1.7881393432617188e-07 (3 * 2^-24)
+    (4, 1, FE(5)),           # 41 /u<c> p@[] 2.980232238769531e-07  (5 * 2^-24): both print as 0.000000 with 6 decimals
 ]
+# predicates some triple stores in a second spelling: their printed form (hence their ORDER BY rank) is not a
+# function of the value; key columns holding them are not judged (pr = 0)
+AMBIGUOUS_PREDS = {t[1] for t in TRIPLES if len(t) > 3}
+TRIPLE_ANCHOR = {i + 1: t[3] for i, t in enumerate(TRIPLES) if len(t) > 3}
+TRIPLES = [t[:3] for t in TRIPLES]
 
 
 def node_text(i):
@@ -173,7 +202,7 @@ def cell_text(c, alt=False):
     if k == "P":
         return pred_text(v, alt)
     if k == "I":
-        return '"%d"^^type:int64' % v
+        return '"%d"^^type:int64' % int_actual(v)
     if k == "F":
         return '"%s"^^type:float64' % fmt_float(v)
     if k == "X":
@@ -197,7 +226,7 @@ def universe():
         "str": STR,
         "nodes": [{"type": t, "id": d} for t, d in NODES],
         "preds": [{"id": e[0], "tmp": e[1], "n": e[2], "anchor": pred_anchor(i + 1)} for i, e in enumerate(PREDS)],
-        "triples": [{"s": s, "p": p, "o": o} for s, p, o in TRIPLES],
+        "triples": [{"s": s, "p": p, "o": o, "anchor": TRIPLE_ANCHOR.get(i + 1, "")} for i, (s, p, o) in enumerate(TRIPLES)],
     }
 
 
@@ -212,7 +241,7 @@ def bqlu_tla():
     spr = ranks(STR)
     xpr = ranks(['"%s"^^type:text' % s for s in STR])
     node = [{"ty": sid(t), "id": sid(d), "pr": npr[i]} for i, (t, d) in enumerate(NODES)]
-    pred = [{"id": sid(e[0]), "tmp": e[1], "n": e[2], "pr": ppr[i]} for i, e in enumerate(PREDS)]
+    pred = [{"id": sid(e[0]), "tmp": e[1], "n": e[2], "pr": 0 if (i + 1) in AMBIGUOUS_PREDS else ppr[i]} for i, e in enumerate(PREDS)]
     tri = [{"s": s, "p": p, "o": o} for s, p, o in TRIPLES]
     strpr = [{"s": spr[i], "x": xpr[i]} for i in range(len(STR))]
     return "\n".join([
@@ -225,6 +254,7 @@ def bqlu_tla():
         "STRPR == %s" % tla_val(strpr),
         "NSTR == %d" % len(STR),
         "NINST == %d" % len(INSTANTS),
+        "BIGINT == %d" % BIG,
         "STRID_SUBJECT == %d" % sid("_subject"),
         "STRID_PREDICATE == %d" % sid("_predicate"),
         "STRID_OBJECT == %d" % sid("_object"),
